@@ -94,7 +94,10 @@ func genPcall(r *rand.Rand, big bool) *pcall {
 	}
 	p.elSnap = gen.RenderEntries(gen.EntriesFromGo(p.el), false)
 	// payload sizes around the sizes at which buffers grow / might be treated specially
-	sz := []int{0, 1, 100, 5000, 20000, 40960, 50000, 65536, 70000}[r.Intn(9)]
+	sz := []int{0, 1, 100, 5000, 20000, 40960, 50000, 65536, 70000, 300000, 700000, 1000000}[r.Intn(12)]
+	if sz >= 300000 && r.Intn(3) != 0 { // the large ones less often (they are incompressible: the compressed stream is as long)
+		sz = 5000
+	}
 	if big && r.Intn(8) == 0 {
 		sz = 1<<20 + r.Intn(3<<20)
 	}
